@@ -262,11 +262,11 @@ func verifC18Get(f []string) string {
 	cc := 0
 	timedOut := false
 	if byUUID {
-		verifC18Wait(func() bool { return done() || hangingCalled() }, 3*time.Second)
+		verifC18Wait(func() bool { return done() || hangingCalled() }, 20*time.Second)
 	} else {
 		verifC18Wait(func() bool {
 			return done() || allRemotesCalled() || (local.kind == 'H' && verifC18Closed(local.called))
-		}, 3*time.Second)
+		}, 20*time.Second)
 		if !done() && allRemotesCalled() {
 			// release the remotes' answers one at a time; after each, wait until the
 			// controller has digested it (call finished, or the mismatch warning was
@@ -283,7 +283,7 @@ func verifC18Get(f []string) string {
 						return false
 					}
 					return st.kind != 'M' || atomic.LoadInt32(&hook.warns) > before
-				}, 2*time.Second)
+				}, 15*time.Second)
 				if done() {
 					break
 				}
@@ -296,7 +296,7 @@ func verifC18Get(f []string) string {
 			cc = 1
 			clientCancel()
 		}
-		if !verifC18Wait(done, 5*time.Second) {
+		if !verifC18Wait(done, 30*time.Second) {
 			timedOut = true
 			clientCancel()
 			verifC18Wait(done, 2*time.Second)
@@ -317,7 +317,7 @@ func verifC18Get(f []string) string {
 			}
 		}
 		return true
-	}, 2*time.Second) {
+	}, 10*time.Second) {
 		leak = 1
 	}
 	fan := "0"
